@@ -310,3 +310,38 @@ Example C16_trailing_whitespace_built_sample :
   | None => False
   end.
 Proof. vm_compute. repeat split. Qed.
+
+Require Import IndentOrigin.
+
+(* The side condition of C16_indentation, read off the text and off what the run builds: every pair of lines has the same
+   text after its leading whitespace, comment lines keep their text, lines that begin with a doc-string delimiter keep
+   their indentation (istatic), and no line whose text changed is handed to the builder as free text.  (The flag version
+   above also covers a doc string that moves as one block.) *)
+Theorem C16_indentation_built : forall m b src src',
+  Forall2 istatic (py_lines src) (py_lines src') ->
+  ~ ibuilt_changed_other (ipaired_run (ipair_lines (py_lines src) (py_lines src') 1) m b) ->
+  psimc (parse_source true m b src) (parse_source true m b src').
+Proof. exact indentation_built. Qed.
+Print Assumptions C16_indentation_built.
+
+Definition c16_reindented : str := s2l
+"   @t
+	Feature: f
+      Scenario: s
+          Given g
+              | a |
+      And d
+      ```
+      text  
+      ```
+".
+Example C16_indentation_built_sample :
+  match new_matcher Dialects.dialects (s2l "en") with
+  | Some m =>
+    forallb2 istaticb (py_lines c16_plain) (py_lines c16_reindented) = true
+    /\ ino_changed_other (ipaired_run (ipair_lines (py_lines c16_plain) (py_lines c16_reindented) 1) m (new_builder 0)) = true
+    (* a doc string that moves as a block is outside this sufficient condition (its delimiter lines move) *)
+    /\ forallb2 istaticb (py_lines c16_plain) (py_lines c16_indented) = false
+  | None => False
+  end.
+Proof. vm_compute. repeat split. Qed.
